@@ -87,6 +87,85 @@ theorem runTask_tasks_ne (w : World) (tid : Nat) {i : Nat} (h : i ≠ tid) :
 @[simp] theorem runTask_log (w : World) (tid : Nat) :
     (w.runTask tid).log = w.log ++ (taskStep tid w.now w.store w.lock (w.tasks tid)).muts.map (fun m => (tid, m)) := rfl
 
+/-! ### `taskStep`, one equation per program counter -/
+
+section
+variable (tid now : Nat) (store : Store) (lock : Locks) (t : Task)
+
+theorem taskStep_start (h : t.pc = .start) :
+    taskStep tid now store lock t =
+      { store := store, lock := lock,
+        task := settle now (if t.isTx then { t with ctx := true, enterAt := now } else t).prog
+                  (if t.isTx then { t with ctx := true, enterAt := now } else t) } := by
+  simp only [taskStep, h]
+
+theorem taskStep_lockTry_free {k left : Nat} (h : t.pc = .lockTry k left)
+    (hf : lockFree lock (lockKeyOf t.mode k) now = true) :
+    taskStep tid now store lock t =
+      { store := store,
+        lock := fun l' => if l' = lockKeyOf t.mode k then some (tid, now + t.timeout) else lock l',
+        task := settle now t.prog { t with locks := insertLock (lockKeyOf t.mode k) t.locks } } := by
+  simp only [taskStep, h, hf, if_true]
+
+theorem taskStep_lockTry_busy {k left : Nat} (h : t.pc = .lockTry k left)
+    (hf : lockFree lock (lockKeyOf t.mode k) now = false) :
+    taskStep tid now store lock t =
+      { store := store, lock := lock, task := { t with pc := .lockSleep k left (now + 4) } } := by
+  simp [taskStep, h, hf]
+
+theorem taskStep_lockSleep {k left w : Nat} (h : t.pc = .lockSleep k left w) :
+    taskStep tid now store lock t = { store := store, lock := lock, task := t } := by
+  simp only [taskStep, h]
+
+theorem taskStep_bodySleep {w : Nat} (h : t.pc = .bodySleep w) :
+    taskStep tid now store lock t = { store := store, lock := lock, task := t } := by
+  simp only [taskStep, h]
+
+theorem taskStep_seedGet {k : Nat} {n : Int} (h : t.pc = .seedGet k n) :
+    taskStep tid now store lock t =
+      { store := store, lock := lock,
+        task := settle now t.prog { t with ov := t.ov.put k ((store k).getD 0 + n),
+                                           results := t.results ++ [some ((store k).getD 0 + n)],
+                                           reads := t.reads ++ [store k] } } := by
+  simp only [taskStep, h]
+
+theorem taskStep_readGet {k : Nat} (h : t.pc = .readGet k) :
+    taskStep tid now store lock t =
+      { store := store, lock := lock,
+        task := settle now t.prog { t with results := t.results ++ [store k], reads := t.reads ++ [store k] } } := by
+  simp only [taskStep, h]
+
+theorem taskStep_direct {c : Cmd} (h : t.pc = .direct c) :
+    taskStep tid now store lock t = directStep now store lock t c := by
+  simp only [taskStep, h]
+
+theorem taskStep_commitDel (h : t.pc = .commitDel) :
+    taskStep tid now store lock t =
+      { store := (Mut.delMany t.del).apply store, lock := lock,
+        task := if t.ov ≠ [] then { t with pc := .commitSet } else afterCommit t, muts := [.delMany t.del] } := by
+  simp only [taskStep, h]
+
+theorem taskStep_commitSet (h : t.pc = .commitSet) :
+    taskStep tid now store lock t =
+      { store := (Mut.setMany t.ov).apply store, lock := lock, task := afterCommit t, muts := [.setMany t.ov] } := by
+  simp only [taskStep, h]
+
+theorem taskStep_unlocking_nil {o : Outcome} (h : t.pc = .unlocking [] o) :
+    taskStep tid now store lock t = { store := store, lock := lock, task := { t with pc := .finished o } } := by
+  simp only [taskStep, h]
+
+theorem taskStep_unlocking_cons {l : LockKey} {rest : List LockKey} {o : Outcome} (h : t.pc = .unlocking (l :: rest) o) :
+    taskStep tid now store lock t =
+      { store := store, lock := unlockOne lock l tid now,
+        task := { t with pc := if rest = [] then .finished o else .unlocking rest o } } := by
+  simp only [taskStep, h]
+
+theorem taskStep_finished {o : Outcome} (h : t.pc = .finished o) :
+    taskStep tid now store lock t = { store := store, lock := lock, task := t } := by
+  simp only [taskStep, h]
+
+end
+
 /-! ### induction over schedules -/
 
 theorem run_nil (w : World) : w.run [] = w := rfl
